@@ -221,6 +221,26 @@ func runC12(c *Ctx) {
 		c.Ob("C12-D4", "sio.middlewareError.data", d.Pos(), okd, "data() must return the stored value or its Error() text")
 	}
 
+	c.Rule("C12-D6", "every registered middleware is in the chain: Namespace.Use and serverSocket.Use append their argument on every path that returns normally — no early return before the append (a 'skip duplicates' "+
+		"test compares function identity by code pointer, so two closures of one literal look equal and the second gate is silently dropped)", 2)
+	for _, name := range []string{"Namespace.Use", "serverSocket.Use"} {
+		fn := p.Fn("sio", name)
+		isAppend := func(in ssa.Instruction) bool {
+			st, ok := in.(*ssa.Store)
+			if !ok || !strings.HasSuffix(Addr(st.Addr), ".middlewareFuncs") {
+				return false
+			}
+			call, ok := st.Val.(*ssa.Call)
+			if !ok {
+				return false
+			}
+			b, ok := call.Call.Value.(*ssa.Builtin)
+			return ok && b.Name() == "append"
+		}
+		skip, trail := CanReachExitAvoiding(fn, nil, isAppend)
+		c.Ob("C12-D6", "sio."+name+"/always-appends", fn.Pos(), !skip && len(findInstrs(fn, isAppend)) >= 1, "a path through Use returns without appending the middleware: "+trailString(p, trail))
+	}
+
 	c.Rule("C12-D5", "event chain: the handler call is preceded on every path by callMiddlewares, is unreachable when it returned an error, and the chain receives the event name as its first value followed by the decoded arguments", 5)
 	{
 		fn := p.Fn("sio", "serverSocket.onEvent")
